@@ -58,7 +58,7 @@ def build_jobs(tier):
 
 def owners_of(job, pr):
     if pr.tag:
-        return [pr.tag.split(':')[0]]
+        return pr.tag.split(':')[0].split('+')
     o = job.owners
     if pr.cls in o:
         return o[pr.cls]
@@ -72,7 +72,7 @@ def job_serves(job, pid):
         if pid in v:
             return True
     for t in job.clause_map.values():
-        if t.startswith(pid + ':'):
+        if pid in t.split(':')[0].split('+'):
             return True
     return False
 
